@@ -23,18 +23,32 @@ _installed = []
 
 
 def install():
+    """Rebinds every threading primitive the async module holds (found by identity) to the scheduler-owned equivalent."""
     import playback.tape_cassettes.asynchronous.async_record_only_tape_cassette as A
     if _installed:
         return _installed
-    real = {'Lock': threading.Lock, 'Event': threading.Event, 'Thread': threading.Thread}
+    real = {'Lock': threading.Lock, 'Event': threading.Event, 'Thread': threading.Thread, 'RLock': threading.RLock,
+            'Condition': threading.Condition, 'Semaphore': threading.Semaphore, 'BoundedSemaphore': threading.BoundedSemaphore}
+    unmodelled = {'Timer': threading.Timer, 'Barrier': threading.Barrier}
     for n, v in list(vars(A).items()):
         for kind, r in real.items():
             if v is r:
-                setattr(A, n, (lambda kind=kind: (lambda *a, **k: getattr(CUR[0], kind)(*a, **k)))())
+                k2 = 'Semaphore' if kind == 'BoundedSemaphore' else kind
+                setattr(A, n, (lambda kind=k2: (lambda *a, **k: getattr(CUR[0], kind)(*a, **k)))())
                 _installed.append(n)
-    mod_thr = [n for n, v in vars(A).items() if v is threading]
-    if mod_thr:
-        raise HarnessError('async cassette now uses the threading module object directly (%s): seam scan must be extended' % mod_thr)
+        for kind, r in unmodelled.items():
+            if v is r:
+                raise HarnessError('async cassette uses threading.%s, which the scheduler does not model' % kind)
+        if v is threading:
+            import types
+            shim = types.SimpleNamespace(**{k: (lambda k=k: (lambda *a, **kw: getattr(CUR[0], 'Semaphore' if k == 'BoundedSemaphore' else k)(*a, **kw)))() for k in real})
+            shim.current_thread = threading.current_thread
+            shim.local = threading.local
+            shim.get_ident = threading.get_ident
+            setattr(A, n, shim)
+            _installed.append(n)
+    if not _installed:
+        raise HarnessError('no threading primitive found in the async cassette module: seam scan must be extended')
     return _installed
 
 
@@ -100,7 +114,7 @@ def execute(case, prefix):
     ops = all_ops(w)
     fail_label = label_of(ops[case['fail']][1]) if case['fail'] is not None else None
     s = S.Sched(prefix, trace_files=('async_record_only_tape_cassette.py',),
-                opcode_attrs=('_recording_operation_buffer', '_lock'), timer_budget=case['K'], max_steps=6000)
+                opcode_attrs=('_recording_operation_buffer', '_lock', '_condition', '_cond'), timer_budget=case['K'], max_steps=6000)
     CUR[0] = s
     journal = []
     holder = {}
@@ -111,8 +125,9 @@ def execute(case, prefix):
         # callers never wait for the wrapped storage: the thread that executes the storage call must not hold the buffer lock
         lock_owner = None
         for v in vars(c).values() if c is not None else ():
-            if isinstance(v, S.VLock) and v.owner is s.cur:
-                lock_owner = v.owner.name
+            lk = v.lock if isinstance(v, S.VCondition) else v
+            if isinstance(lk, (S.VLock, S.VRLock)) and lk.owner is s.cur:
+                lock_owner = lk.owner.name
         journal.append((label, lock_owner, ()))
         s.point(('storage', label))     # the wrapped storage is slow: other threads may run meanwhile
         if label == fail_label:
